@@ -152,6 +152,11 @@ func (e *Engine) runHarness(name string) *RunResult {
 	res := &RunResult{Harness: name, Params: e.params, Reach: map[string]int{}}
 	fn := e.p.harness[name]
 	if fn == nil {
+		if f := e.p.stale[name]; f != "" {
+			res.Status = "STALE"
+			res.Error = "harness file " + f + " does not compile against the current tree (internal identifiers it reaches into were renamed or retyped)"
+			return res
+		}
 		res.Status = "ERROR"
 		res.Error = "no such harness: " + name
 		return res
